@@ -197,6 +197,122 @@ def run_case(case, scratch):
         shutil.rmtree(root, ignore_errors=True)
 
 
+# ------------------------------------------------------------------ fault injection by call index (any primitive)
+MUTATORS = {"replace", "rename", "renames", "remove", "unlink", "makedirs", "mkdir", "rmdir", "link", "symlink",
+            "truncate", "open", "write", "close", "move", "copy", "copyfile", "copy2", "rmtree", "fsync"}
+
+
+def generic_child(k, kind, compress, root, resf):
+    """real utils.save with a fault at the k-th file-system primitive it calls, whatever that primitive is"""
+    import adaptive.utils as au
+    count = {"n": 0, "names": []}
+
+    def hit(name):
+        count["names"].append(name)
+        if count["n"] == k:
+            count["n"] += 1
+            with builtins.open(resf + ".names", "w") as f:
+                f.write(",".join(count["names"]))
+            if kind == "death":
+                os._exit(77)
+            raise OSError(5, f"injected at call {k} ({name})")
+        count["n"] += 1
+
+    class Proxy:
+        def __init__(self, real):
+            object.__setattr__(self, "_real", real)
+
+        def __getattr__(self, name):
+            v = getattr(object.__getattribute__(self, "_real"), name)
+            if name == "path":
+                return v
+            if name in MUTATORS and callable(v):
+                def w(*a, **kw):
+                    hit(name)
+                    return v(*a, **kw)
+                return w
+            return v
+
+    class FileShim:
+        def __init__(self, path, mode):
+            hit("open")
+            self.f = builtins.open(path, mode, buffering=0)
+
+        def write(self, blob):
+            hit("write")
+            return self.f.write(blob)
+
+        def __enter__(self):
+            return self
+
+        def __exit__(self, *exc):
+            self.f.close()
+            hit("close")
+            return False
+
+    au.os = Proxy(os)
+    if hasattr(au, "shutil"):
+        au.shutil = Proxy(au.shutil)
+    au.open = lambda path, mode="r": FileShim(path, mode) if any(c in mode for c in "wax+") else builtins.open(path, mode)
+    try:
+        r = au.save(os.path.join(root, "sub", "dest.pickle"), NEW, compress=bool(compress))
+        res = "true" if r is True else "false" if r is False else f"other:{r!r}"
+    except OSError:
+        res = "raised"
+    with builtins.open(resf + ".names", "w") as f:
+        f.write(",".join(count["names"]))
+    with builtins.open(resf, "w") as f:
+        f.write(res)
+    os._exit(0)
+
+
+def generic_search(scratch, maxk=12):
+    """property oracle under a fault at every call position (independent of the model's list of primitives)"""
+    import adaptive.utils as au
+    fails, n = [], 0
+    for k, kind, has_old, compress in itertools.product(range(maxk), ("oserror", "death"), (0, 1), (0, 1)):
+        root = tempfile.mkdtemp(dir=scratch)
+        try:
+            dest = os.path.join(root, "sub", "dest.pickle")
+            if has_old:
+                os.makedirs(os.path.dirname(dest))
+                assert au.save(dest, OLD, compress=bool(compress))
+            resf = os.path.join(root, "result.txt")
+            pid = os.fork()
+            if pid == 0:
+                try:
+                    generic_child(k, kind, compress, root, resf)
+                finally:
+                    os._exit(99)
+            _, status = os.waitpid(pid, 0)
+            code = os.waitstatus_to_exitcode(status)
+            names = open(resf + ".names").read().split(",") if os.path.exists(resf + ".names") else []
+            if len(names) <= k:
+                continue  # the save made fewer than k+1 primitive calls: no fault was injected
+            n += 1
+            result = open(resf).read() if os.path.exists(resf) else ("died" if code == 77 else f"crash:{code}")
+            if not os.path.exists(dest):
+                d = "none"
+            else:
+                try:
+                    data = au.load(dest, compress=bool(compress))
+                    d = "old" if data == OLD else "new" if data == NEW else "other"
+                except Exception:
+                    d = "partial"
+            want_old = "old" if has_old else "none"
+            where = f"{kind} at call {k} ({names[k]}) of {names}, previous file: {bool(has_old)}, gzip: {bool(compress)}"
+            rep = {"generic": True, "k": k, "kind": kind, "has_old": has_old, "compress": compress}
+            if d not in (want_old, "new"):
+                fails.append(("atomic", f"destination is {d} after {where}", rep))
+            elif result in ("false", "raised") and d != want_old:
+                fails.append(("failure_untouched", f"save reported {result} but destination is {d} after {where}", rep))
+            elif result == "true" and kind == "oserror" and d != "new":
+                fails.append(("success_installs", f"save returned True but destination is {d} after {where}", rep))
+        finally:
+            shutil.rmtree(root, ignore_errors=True)
+    return fails, n
+
+
 def load_oracle(scratch):
     """loading a missing / empty file leaves learners exactly as they were"""
     import adaptive
@@ -251,6 +367,10 @@ def run(ctx):
                 failures.append({"clause": fail[0], "signature": f"C14.{fail[0]}", "detail": fail[1], "replay": case})
         for f in load_oracle(scratch):
             failures.append({"clause": f[0], "signature": f"C14.{f[0]}", "detail": f[1], "replay": {"load": True}})
+        gf, ngen = generic_search(scratch)
+        corr.count("generic_fault_positions", ngen)
+        for cl, det, rep in gf[:3]:
+            failures.append({"clause": cl, "signature": f"C14.{cl}", "detail": det, "replay": rep})
     finally:
         shutil.rmtree(scratch, ignore_errors=True)
     core.lockstep(corr, [{"lines": [l], "impl": [o], "meta": m} for l, o, m in zip(lines, outs, metas)])
@@ -277,6 +397,15 @@ def replay(ctx, path):
     case = d.get("replay", d)
     core.OUT.mkdir(exist_ok=True)
     scratch = tempfile.mkdtemp(prefix="c14_", dir=core.OUT)
+    if case.get("generic") or case.get("load"):
+        try:
+            gf, _ = generic_search(scratch)
+            lf = load_oracle(scratch)
+        finally:
+            shutil.rmtree(scratch, ignore_errors=True)
+        for f in gf + lf:
+            print("FAIL", f[0], f[1])
+        return 1 if gf or lf else 0
     try:
         line, out, fail = run_case(case, scratch)
     finally:
